@@ -9,6 +9,7 @@ import (
 	"strings"
 	"runtime"
 	"strconv"
+	"sync"
 	"sync/atomic"
 	"time"
 
@@ -221,6 +222,10 @@ func dispExec(h sim.History) []string {
 	out := []string{"new disp"}
 	for _, line := range h.Ops {
 		tok := strings.Fields(line)
+		if len(tok) == 1 && tok[0] == "registry" {
+			out = append(out, dispRegistry()...)
+			continue
+		}
 		if len(tok) == 2 && tok[0] == "stress" {
 			n, _ := strconv.Atoi(tok[1])
 			out = append(out, dispStress(n)...)
@@ -335,6 +340,85 @@ func dispStress(n int) []string {
 	return out
 }
 
+// lockedRegistry: a WorkRegistry the client changes between dispatches.
+type lockedRegistry struct {
+	mu sync.Mutex
+	m  map[string]*def.WorkFn
+}
+
+func (r *lockedRegistry) Load(id string) (*def.WorkFn, bool) {
+	r.mu.Lock()
+	defer r.mu.Unlock()
+	fn, ok := r.m[id]
+	return fn, ok
+}
+
+func (r *lockedRegistry) set(id string, fn *def.WorkFn) {
+	r.mu.Lock()
+	defer r.mu.Unlock()
+	if fn == nil {
+		delete(r.m, id)
+	} else {
+		r.m[id] = fn
+	}
+}
+
+// dispRegistry: ONE dispatcher, whose registry the client changes between dispatches: the function that runs, and
+// "work id not found", are decided by what the registry holds when the task is dispatched, not by what it held earlier.
+func dispRegistry() []string {
+	var out []string
+	errA := errors.New("result of function A")
+	var fnA def.WorkFn = func(ctx context.Context, param map[string]string) error { return errA }
+	var fnB def.WorkFn = func(ctx context.Context, param map[string]string) error { return nil }
+	reg := &lockedRegistry{m: map[string]*def.WorkFn{"w": &fnA}}
+	d := workerpool.NewWorkerPoolDispatcher(reg)
+	d.WorkerPool.Add(1)
+	d.WorkerPool.WaitUntil(func(alive, sleeping, active int) bool { return alive == 1 })
+	defer func() {
+		d.WorkerPool.Remove(100)
+		done := make(chan struct{})
+		go func() { d.WorkerPool.Wait(); close(done) }()
+		select {
+		case <-done:
+		case <-time.After(2 * time.Second):
+		}
+	}()
+	run := func() string {
+		ch, err := d.Dispatch(context.Background(), func(ctx context.Context) (def.Task, error) {
+			return def.Task{Id: "x", WorkId: "w"}, nil
+		})
+		if err != nil {
+			return "dispatch-error " + classify(err)
+		}
+		select {
+		case v := <-ch:
+			if v == errA {
+				return "A"
+			}
+			return classify(v)
+		case <-time.After(30 * time.Second):
+			return "no-result"
+		}
+	}
+	steps := []struct {
+		what string
+		fn   *def.WorkFn
+		want string
+	}{
+		{"function A registered", &fnA, "A"},
+		{"work id deleted from the registry", nil, "not_found"},
+		{"function B registered under the same work id", &fnB, "nil"},
+		{"function A registered again", &fnA, "A"},
+	}
+	for _, st := range steps {
+		reg.set("w", st.fn)
+		if got := run(); got != st.want {
+			out = append(out, "mismatch C09 one dispatcher, registry changed between dispatches ("+st.what+"): the result channel delivered "+got+", expected "+st.want)
+		}
+	}
+	return out
+}
+
 func cmdDisp(args []string) {
 	var c common
 	fs := flag.NewFlagSet("disp", flag.ExitOnError)
@@ -369,6 +453,7 @@ func cmdDisp(args []string) {
 			}
 		}
 		hists = append(hists, sim.History{Header: "new disp", Ops: []string{"stress 4000"}})
+		hists = append(hists, sim.History{Header: "new disp", Ops: []string{"registry"}})
 		rep.Exhaustive = true
 	}
 	traces := make([][]string, len(hists))
